@@ -1024,15 +1024,14 @@ func propC18(c *Ctx) {
 		if o.Sites < 2 {
 			o.Fail("-", "storeService uses not found (floor 2: both NewKeeper functions)", nil)
 		}
-		o2 := c.Ob("C18.R4", "collections are accessed only through their methods or the read-only paginator (no raw iterator escapes)")
+		o2 := c.Ob("C18.R4", "collections are accessed only through their methods, their read-only cursors or the read-only paginator")
 		for _, s := range eff.Where(func(s *Site) bool { return s.Kind == SColl }) {
 			o2.Sites++
 			if !collReads[s.Method] && !collWrites[s.Method] {
 				o2.Fail(c.W.Pos(s.Pos), "collections method "+s.Method+" in "+fnShort(s.Root())+" is not in the read/write table", nil)
 			}
-			if s.Method == "Iterate" || s.Method == "IterateRaw" {
-				o2.Fail(c.W.Pos(s.Pos), "raw iterator obtained in "+fnShort(s.Root())+" (use Walk)", nil)
-			}
+			// Iterate / IterateRaw are ordered reads (key order of the store); a cursor that is kept
+			// beyond the call is process memory and is reported by C18.R3
 		}
 		if o2.Sites < 60 {
 			o2.Fail("-", fmt.Sprintf("only %d collection access sites resolved (floor 60)", o2.Sites), nil)
